@@ -1,6 +1,6 @@
 \* Lru with its history variables (quick tier): Keys {k1,k2,k3}, Vals {v1,v2},
 \* capacity 1..3, histories of any length (finite state space).
-\* Measured: see notes/C15.md.
+\* Measured: 4668 distinct states, 42015 generated, ~2 s.
 SPECIFICATION LruSpec
 CONSTANTS
   Keys <- K3
